@@ -128,6 +128,46 @@ def blocks_between_elevations_partition_the_interval(ctx, n):
                       AND(got <= hs[k] + 1e-9 * H, got <= zu - zl + 1e-9 * H))
 
 
+# Candidate genuine defect (reported, not repaired): a window that no block overlaps (wholly above the assembly top or
+# below elevation 0) makes getBlocksBetweenElevations raise IndexError (allMeshPoints[-1] of an empty list) instead of
+# returning no blocks or failing with its documented ValueError: 2 blocks of 10 cm, getBlocksBetweenElevations(25, 30).
+# While the flag is set the window is assumed to touch the assembly.
+KNOWN_DEFECT_window_without_overlap_raises_index_error = True
+
+
+@harness("C11", bounds="as above, but the window may reach beyond the assembly: zLower<zUpper anywhere in [-50, H+50]",
+         stubs=STUBS, instances={"quick": [dict(n=2)], "thorough": [dict(n=3)]})
+def window_beyond_the_assembly_fails_loudly_or_reports_the_overlaps(ctx, n):
+    a, hs = sym_assembly(ctx, n, "")
+    H = sum(hs)
+    zl = ctx.real("zLower", -50.0, n * HHI + 50.0)
+    zu = ctx.real("zUpper", -50.0, n * HHI + 50.0)
+    ctx.assume(AND(zu <= H + 50, zu - zl >= 1e-3 * _slack(ctx, -1)))
+    if KNOWN_DEFECT_window_without_overlap_raises_index_error:
+        ctx.assume(AND(zu >= 0, zl <= H))
+    try:
+        info = a.getBlocksBetweenElevations(zl, zu)
+        raised = False
+    except ValueError:          # the function's own check: the reported overlaps do not add up to the window
+        raised = True
+    inside = AND(zl >= 0, zu <= H)
+    if ctx.canary:
+        inside = OR(inside, AND(zu > H + 5, zu < H + 5.001))
+    ctx.check("a window inside the assembly is never refused", IMPLIES(raised, NOT(inside)))
+    if raised:
+        return
+    blocks = list(a)
+    rep = dict((blocks.index(b), h) for b, h in info)
+    for k, b in enumerate(blocks):
+        geo = MAX(0, MIN(b.p.ztop, zu) - MAX(b.p.zbottom, zl))
+        ctx.check_close("block %d: reported overlap = length of its intersection with the window" % k, rep.get(k, 0.0),
+                        geo, scale=H + 100)
+        if k in rep:
+            ctx.check("block %d: reported overlap is positive" % k, rep[k] > 0)
+    ctx.check_close("the overlaps sum to the length of the part of the window that lies inside the assembly",
+                    sum(h for _b, h in info), MAX(0, MIN(zu, H) - MAX(zl, 0)), scale=H + 100)
+
+
 @harness("C11", bounds="as above; elevation anywhere in [-10, H+10]", stubs=STUBS,
          instances={"quick": [dict(n=3)], "thorough": [dict(n=4)]})
 def block_at_elevation_contains_the_elevation(ctx, n):
@@ -304,13 +344,22 @@ def remesh_maps_parameters_by_kind(ctx, ns, nd, unset):
         ctx.check("source block parameters untouched", AND(b.p[VI] is v[VI], b.p[AVG] is v[AVG]))
 
 
-@harness("C11", bounds="meshes as above; a peak-type parameter (fluxPeak, location MAX) >= 0 per source block, "
-                       "symbolic in [0,1e6]", stubs=STUBS, qtimeout_ms=30000,
+# Candidate genuine defect (reported, not repaired): setAssemblyStateFromOverlaps accumulates the peak in a
+# defaultdict(float), i.e. starts the running maximum at 0.0: when every overlapped source value of a peak quantity is
+# negative the destination gets 0.0, which is none of the source values.  Plain floats: two source blocks of 10 cm with
+# fluxPeak -3 and -2 mapped onto one block of 20 cm -> 0.0 instead of -2.
+# While the flag is set the obligations are required only when the largest substantially overlapped value is >= 0.
+KNOWN_DEFECT_peak_maximum_starts_at_zero = True
+_NEG = -1e7         # below every admissible value: neutral element of the maximum
+
+
+@harness("C11", bounds="meshes as above; a peak-type parameter (fluxPeak, location MAX) per source block, symbolic in "
+                       "[-1e6,1e6] (either sign)", stubs=STUBS, qtimeout_ms=30000,
          instances={"quick": [dict(ns=2, nd=2), dict(ns=3, nd=2)], "thorough": [dict(ns=2, nd=3), dict(ns=3, nd=3)]})
 def remesh_peak_is_largest_overlapped_value(ctx, ns, nd):
     src, hs = sym_assembly(ctx, ns, "s")
     H = sum(hs)
-    v = [ctx.real("pk%d" % k, 0.0, 1e6) for k in range(ns)]
+    v = [ctx.real("pk%d" % k, -1e6, 1e6) for k in range(ns)]
     for b, x in zip(src, v):
         b.p[PEAK] = x
     dst, hd = sym_assembly(ctx, nd, "d", heights=dest_mesh(ctx, H, nd))
@@ -321,13 +370,14 @@ def remesh_peak_is_largest_overlapped_value(ctx, ns, nd):
         got = bd.p[PEAK]
         ov = [overlap(bs, bd) for bs in src]
         # overlaps thinner than 1e-10 of a block are ignored by design: sandwich between the two readings
-        upper = MAX(*[ITE(o > 0, x, 0) for o, x in zip(ov, v)])
-        lower = MAX(*[ITE(o > 1e-9 * H, x, 0) for o, x in zip(ov, v)])
+        upper = MAX(*[ITE(o > 0, x, _NEG) for o, x in zip(ov, v)])
+        lower = MAX(*[ITE(o > 1e-9 * H, x, _NEG) for o, x in zip(ov, v)])
+        stated = lower >= 0 if KNOWN_DEFECT_peak_maximum_starts_at_zero else True
         if ctx.canary and j == 0:
-            lower = MAX(*[ITE(hs[0] > 10 * hd[0], x, 0) for x in v])
-        ctx.check("dest %d: peak >= every source value overlapped substantially" % j, got >= lower)
-        ctx.check("dest %d: peak <= largest source value overlapped at all" % j, got <= upper)
-        ctx.check("dest %d: peak is one of the source values" % j, OR(*[got == x for x in v]))
+            lower = MAX(*[ITE(hs[0] > 10 * hd[0], x, _NEG) for x in v])
+        ctx.check("dest %d: peak >= every source value overlapped substantially" % j, IMPLIES(stated, got >= lower))
+        ctx.check("dest %d: peak <= largest source value overlapped at all" % j, IMPLIES(stated, got <= upper))
+        ctx.check("dest %d: peak is one of the source values" % j, IMPLIES(stated, OR(*[got == x for x in v])))
 
 
 def point_mesh(ctx, a, pts, label):
@@ -359,20 +409,9 @@ def coincidence_patterns(ns, nd):
     return out
 
 
-@harness("C11", bounds="source mesh of ns blocks and destination mesh of nd blocks as symbolic mesh points "
-                       "(cells in [0.1,1000] cm); one instance per coincidence pattern of the interior points (same "
-                       "proxy where they coincide, assumed different otherwise), interleavings by forking; densities "
-                       "of 2 nuclides and a volume-integrated parameter symbolic; state mapped there and back onto "
-                       "the original mesh", stubs=STUBS, qtimeout_ms=30000,
-         instances={"quick": [dict(ns=2, nd=2, pat=p) for p in coincidence_patterns(2, 2)] +
-                             [dict(ns=3, nd=2, pat=p) for p in coincidence_patterns(3, 2) if p != (None,)] +
-                             [dict(ns=2, nd=3, pat=(None, 1), nucs=("U235",))],
-                    "thorough": [dict(ns=3, nd=2, pat=(None,), nucs=())] +     # (densities: nlsat > 60 s/query)
-                                [dict(ns=2, nd=3, pat=p, nucs=("U235",)) for p in coincidence_patterns(2, 3)
-                                 if p != (None, None)] +
-                                [dict(ns=3, nd=3, pat=p, nucs=("U235",)) for p in coincidence_patterns(3, 3)
-                                 if None not in p]})
-def remesh_there_and_back_restores_totals(ctx, ns, nd, pat, nucs=("U235", "FE")):
+def two_point_meshes(ctx, ns, nd, pat):
+    """Mesh points P (ns cells) and Q (nd cells) from 0 to the same top (same proxy); the interior points of Q coincide
+    with those of P as given by pat (same proxy), the others are assumed different from every point of P."""
     P = [0.0] + [ctx.real("p%d" % k, HLO, ns * HHI) for k in range(1, ns + 1)]
     for k in range(ns):
         ctx.assume(AND(P[k + 1] - P[k] >= HLO * _slack(ctx, -1), P[k + 1] - P[k] <= HHI * _slack(ctx, +1)))
@@ -389,6 +428,25 @@ def remesh_there_and_back_restores_totals(ctx, ns, nd, pat, nucs=("U235", "FE"))
     Q.append(H)
     for k in range(nd):
         ctx.assume(AND(Q[k + 1] - Q[k] >= HLO * _slack(ctx, -1), Q[k + 1] - Q[k] <= HHI * _slack(ctx, +1)))
+    return P, Q
+
+
+@harness("C11", bounds="source mesh of ns blocks and destination mesh of nd blocks as symbolic mesh points "
+                       "(cells in [0.1,1000] cm); one instance per coincidence pattern of the interior points (same "
+                       "proxy where they coincide, assumed different otherwise), interleavings by forking; densities "
+                       "of 2 nuclides and a volume-integrated parameter symbolic; state mapped there and back onto "
+                       "the original mesh", stubs=STUBS, qtimeout_ms=30000,
+         instances={"quick": [dict(ns=2, nd=2, pat=p) for p in coincidence_patterns(2, 2)] +
+                             [dict(ns=3, nd=2, pat=p) for p in coincidence_patterns(3, 2) if p != (None,)] +
+                             [dict(ns=2, nd=3, pat=(None, 1), nucs=("U235",))],
+                    "thorough": [dict(ns=3, nd=2, pat=(None,), nucs=())] +     # (densities: nlsat > 60 s/query)
+                                [dict(ns=2, nd=3, pat=p, nucs=("U235",)) for p in coincidence_patterns(2, 3)
+                                 if p != (None, None)] +
+                                [dict(ns=3, nd=3, pat=p, nucs=("U235",)) for p in coincidence_patterns(3, 3)
+                                 if None not in p]})
+def remesh_there_and_back_restores_totals(ctx, ns, nd, pat, nucs=("U235", "FE")):
+    P, Q = two_point_meshes(ctx, ns, nd, pat)
+    H = P[-1]
     src, dst, back = _build.mk_assembly(ns), _build.mk_assembly(nd), _build.mk_assembly(ns)
     point_mesh(ctx, src, P, "source")
     point_mesh(ctx, dst, Q, "destination")
@@ -425,6 +483,71 @@ def remesh_there_and_back_restores_totals(ctx, ns, nd, pat, nucs=("U235", "FE"))
             for nuc in nucs:
                 ctx.check_close("refinement: block %d N(%s) restored" % (k, nuc), b1.getNumberDensity(nuc),
                                 b0.getNumberDensity(nuc), scale=b0.getNumberDensity(nuc) + 1e-30)
+
+
+@harness("C11", bounds="ONE ParamMapper instance serves a history of 2-3 mappings between two real assemblies A (ns blocks) "
+                       "and B (nd blocks) spanning the same height (symbolic mesh points as in the there-and-back harness, "
+                       "pat = coincidence pattern of the interior points, default none): seq lists the directions; before "
+                       "every step the source assembly gets a new generation of symbolic values (fresh=True: the physics "
+                       "code updated it) or keeps what the previous mapping left on it; volume-integrated scalar and "
+                       "2-vector, averaged scalar, peak scalar", stubs=STUBS, qtimeout_ms=30000,
+         instances={"quick": [dict(seq=("AB", "AB")), dict(seq=("AB", "BA", "AB"), ns=1)],
+                    "thorough": [dict(seq=("AB", "BA", "AB")), dict(seq=("AB", "BA", "BA")),
+                                 dict(seq=("AB", "BA", "AB"), fresh=(True, True, False)),
+                                 dict(seq=("AB", "AB", "AB"), ns=3)]})
+def one_mapper_serves_a_history_of_mappings(ctx, seq, ns=2, nd=2, fresh=None, pat=None):
+    fresh = fresh or (True,) * len(seq)
+    P, Q = two_point_meshes(ctx, ns, nd, pat or (None,) * (nd - 1))
+    H = P[-1]
+    A, B = _build.mk_assembly(ns), _build.mk_assembly(nd)
+    point_mesh(ctx, A, P, "A")
+    point_mesh(ctx, B, Q, "B")
+    hs = {id(A): [P[k + 1] - P[k] for k in range(ns)], id(B): [Q[k + 1] - Q[k] for k in range(nd)]}
+    names = [VI, VIARR, AVG, PEAK]
+    gens = []
+    for s, d in enumerate(seq):         # every input is declared before the first mapping forks
+        src = A if d[0] == "A" else B
+        gens.append([{VI: ctx.real("P%d_%d" % (s, k), -1e6, 1e6), AVG: ctx.real("q%d_%d" % (s, k), -1e6, 1e6),
+                      PEAK: ctx.real("pk%d_%d" % (s, k), 0.0, 1e6),
+                      VIARR: [ctx.real("F%d_%d_%d" % (s, k, g), 0.0, 1e6) for g in range(2)]}
+                     for k in range(len(src))])
+    mapper = ParamMapper([], names, A[0])
+    for s, d in enumerate(seq):
+        src, dst = (A, B) if d == "AB" else (B, A)
+        hsrc, hdst = hs[id(src)], hs[id(dst)]
+        if fresh[s]:
+            for b, v in zip(src, gens[s]):
+                for name, x in v.items():
+                    b.p[name] = list(x) if isinstance(x, list) else x
+        # the state of the source at the moment of the mapping, whatever put it there
+        cur = [{n: (list(b.p[n]) if n == VIARR else b.p[n]) for n in names} for b in src]
+        UniformMeshGeometryConverter.setAssemblyStateFromOverlaps(src, dst, mapper, mapNumberDensities=False)
+        tag = "step %d (%s)" % (s + 1, d)
+        last = s == len(seq) - 1
+        sc = sum(abs(v[VI]) for v in cur) + 1e-30
+        want = sum(v[VI] for v in cur)
+        if ctx.canary and last:
+            want = want + ITE(hsrc[0] > 2 * hdst[0], 0.01 * abs(cur[0][VI]) + 1.0, 0)
+        ctx.check_close("%s: assembly total of the volume-integrated scalar = CURRENT total of the source" % tag,
+                        sum(b.p[VI] for b in dst), want, scale=sc + (1.0 if ctx.canary else 0.0))
+        for g in range(2):
+            ctx.check_close("%s: assembly total of the volume-integrated vector = current total of the source (group "
+                            "%d)" % (tag, g), sum(b.p[VIARR][g] for b in dst), sum(v[VIARR][g] for v in cur),
+                            scale=sum(abs(v[VIARR][g]) for v in cur) + 1e-30)
+        for j, bd in enumerate(dst):
+            ov = [overlap(bs, bd) for bs in src]
+            ctx.check_close("%s: dest %d: integrated scalar = sum of current source values x overlapped fraction" % (tag, j),
+                            bd.p[VI], sum(cur[i][VI] * ov[i] / hsrc[i] for i in range(len(src))), scale=sc)
+            ctx.check_close("%s: dest %d: averaged scalar x height = sum of current source value x overlap" % (tag, j),
+                            bd.p[AVG] * hdst[j], sum(cur[i][AVG] * ov[i] for i in range(len(src))),
+                            scale=sum(abs(v[AVG]) for v in cur) * H + 1e-30)
+            pk = [v[PEAK] for v in cur]
+            ctx.check("%s: dest %d: peak >= every current source value overlapped substantially" % (tag, j),
+                      bd.p[PEAK] >= MAX(0, *[ITE(o > 1e-9 * H, x, 0) for o, x in zip(ov, pk)]))
+            ctx.check("%s: dest %d: peak <= largest current source value overlapped at all" % (tag, j),
+                      bd.p[PEAK] <= MAX(0, *[ITE(o > 0, x, 0) for o, x in zip(ov, pk)]))
+        for b, v in zip(src, cur):
+            ctx.check("%s: source block parameters untouched" % tag, AND(b.p[VI] is v[VI], b.p[AVG] is v[AVG]))
 
 
 # ---------------------------------------------------------------------------------------------------------------
@@ -523,12 +646,22 @@ def _round(x, ndigits=None):
     return Sym(e)
 
 
+def _average_normal_form(vals, tol=0.2):
+    """The REAL average1DWithinTolerance; symbolic entries of its result are brought to the normal form of the term, so
+    that the mean (x + x)/2 of identical symbolic mesh points of two assemblies is the same proxy as x (the generated mesh
+    is filtered through sets of its points)."""
+    return _np.array([_round(x) if isinstance(x, Sym) else x for x in mathmod.average1DWithinTolerance(vals, tol)])
+
+
 shims.patch(coresmod, float=shims.float_shim, round=_round)
 shims.patch(sgridmod, np=shims.np_shim)
+shims.patch(ummod, average1DWithinTolerance=_average_normal_form)
 STUBS_CORE = STUBS + ["grids.structuredGrid.np -> object-array aware numpy shim (cell base/top of a block whose axial bounds "
                       "are symbolic)",
                       "cores.float -> identity on proxies; cores.round -> identity on proxies, as normal form of the term (mesh "
-                      "elevations are rounded to 8 decimals by findAllMeshPoints: modelled as exact on reals)"]
+                      "elevations are rounded to 8 decimals by findAllMeshPoints: modelled as exact on reals)",
+                      "uniformMesh.average1DWithinTolerance -> the real function, symbolic entries of the result rewritten "
+                      "to the normal form of the term (identity on plain numbers)"]
 
 # (fuel bottom, fuel top, assembly height) of the fuel assemblies of the mini core
 # Candidate genuine defect (reported, not repaired): the decusping treats neither elevation 0 nor the top of the
@@ -540,6 +673,12 @@ STUBS_CORE = STUBS + ["grids.structuredGrid.np -> object-array aware numpy shim 
 # While the flag is set the two obligations on the ends are required only when no control boundary lies within the
 # minimum of that end; set it to False to see the violations.
 KNOWN_DEFECT_decusp_ignores_assembly_ends = False  # recorded in known_findings.jsonl
+# Same root cause (elevation 0 is no anchor), other region - NOT covered by the recorded predicate: when the assemblies' own
+# first block (a foot below the reflector) is thinner than the minimum and no fuel bottom is within the minimum of its top,
+# the generated mesh keeps that point and the first cell is thinner than the minimum.  Plain floats: fuel assemblies
+# 0 / 0.5 / 25 / 125 / 175 cm, control 60..100, minimum 2 -> common mesh [0.5, 25, 60, 100, 125, 175].
+# While the flag is set the obligation on the first cell is required only when the foot is not thinner than the minimum.
+KNOWN_DEFECT_decusp_thin_first_cell = True
 FUEL_25_125 = (25.0, 125.0, 175.0)
 FUEL_SHORT = (40.0, 60.0, 100.0)
 
@@ -553,23 +692,38 @@ FUEL_30_120 = (30.0, 120.0, 175.0)
                        "absorber bottom and top elevations are symbolic anywhere in the assembly (absorber >= 1 cm long, "
                        ">= 1 cm from both assembly ends), minimum mesh size symbolic in [0.1,30] cm; every ordering / "
                        "closeness of the control boundaries relative to the fuel boundaries is a solver path; coincide: "
-                       "one control boundary sits exactly on a fuel boundary", stubs=STUBS_CORE, qtimeout_ms=30000,
-         instances={"quick": [dict(fuel=FUEL_25_125), dict(fuel=FUEL_25_125, coincide="bottomOnFuelTop")],
-                    "thorough": [dict(fuel=FUEL_25_125, coincide="topOnFuelTop"),
+                       "one control boundary sits exactly on a fuel boundary; cap: every fuel assembly carries a cap block "
+                       "of symbolic thickness in [0.05,30] cm above its plenum (the top-most cell of the assemblies' own "
+                       "mesh may be thinner than the minimum); foot: the same with a foot block below the reflector", stubs=STUBS_CORE, qtimeout_ms=30000,
+         instances={"quick": [dict(fuel=FUEL_25_125), dict(fuel=FUEL_25_125, coincide="bottomOnFuelTop"),
+                              dict(fuel=FUEL_25_125, coincide="bottomOnFuelTop", cap=True)],
+                    "thorough": [dict(fuel=FUEL_25_125, cap=True), dict(fuel=FUEL_25_125, coincide="bottomOnFuelTop", foot=True),
+                                 dict(fuel=FUEL_25_125, coincide="topOnFuelTop"),
                                  dict(fuel=FUEL_25_125, coincide="bottomOnFuelBottom"),
                                  dict(fuel=FUEL_SHORT), dict(fuel=FUEL_25_125, fuel2=FUEL_30_120),
                                  dict(fuel=FUEL_25_125, fuel2=FUEL_30_120, coincide="bottomOnFuelTop")]})
-def decusped_common_mesh_keeps_material_boundaries(ctx, fuel, fuel2=None, coincide=None):
+def decusped_common_mesh_keeps_material_boundaries(ctx, fuel, fuel2=None, coincide=None, cap=False, foot=False):
     meshes = [fuel, fuel2 or fuel]
     H = fuel[2]
     fbs, fts = sorted(set(f[0] for f in meshes)), sorted(set(f[1] for f in meshes))
     fb, ft = fbs[0], fts[-1]            # lowest fuel bottom, highest fuel top: the primary anchors
-    r, core, assems = _build.mk_core([(0, 0), (1, 0)], nblocks=3)
-    ctrl = _build.mk_assembly(4, name="control")
+    r, core, assems = _build.mk_core([(0, 0), (1, 0)], nblocks=3 + bool(cap) + bool(foot))
+    ctrl = _build.mk_assembly(6 if cap or foot else 4, name="control")
     core.add(ctrl, core.spatialGrid[2, 0, 0])
     cb = ctx.real("ctrlBottom", 1.0, H - 2.0)
     ct = ctx.real("ctrlTop", 2.0, H - 1.0)
     m = ctx.real("minSize", 0.1, 30.0)
+    extra = []                          # symbolic points of the fuel assemblies' own mesh (besides the fuel boundaries)
+    if cap:
+        # every fuel assembly ends with a cap block of symbolic thickness above its plenum: the top-most cell of the
+        # assemblies' own (average) mesh may be thinner than the minimum
+        capBottom = H - ctx.real("capThickness", 0.05, 30.0)
+        extra = [capBottom]
+    low = []
+    if foot:
+        # every fuel assembly starts with a foot block of symbolic thickness below its reflector: the first cell of the
+        # assemblies' own mesh may be thinner than the minimum
+        low = [ctx.real("footThickness", 0.05, 20.0)]
     if coincide == "bottomOnFuelTop":
         cb = ft
     elif coincide == "topOnFuelTop":
@@ -580,12 +734,16 @@ def decusped_common_mesh_keeps_material_boundaries(ctx, fuel, fuel2=None, coinci
     freeCtrl = [x for x, fixed in ((cb, ("bottomOnFuelTop", "bottomOnFuelBottom")), (ct, ("topOnFuelTop",)))
                 if coincide not in fixed]                    # the control boundaries that are inputs
     for a, pts in zip(assems, meshes):
-        a[0].setType("reflector")
-        a[2].setType("plenum")
-        point_mesh(ctx, a, [0.0] + list(pts), "fuel assembly")
-    for b, t in zip(ctrl, ("duct", "control", "plenum", "plenum")):
+        for b, t in zip(a, ["grid plate"] * len(low) + ["reflector", "fuel"] + ["plenum"] * (1 + len(extra))):
+            b.setType(t)
+        point_mesh(ctx, a, [0.0] + low + list(pts[:2]) + extra + [pts[2]], "fuel assembly")
+    for b, t in zip(ctrl, ("duct", "control", "plenum", "plenum", "plenum", "plenum")):
         b.setType(t)
-    point_mesh(ctx, ctrl, [0.0, cb, ct, (ct + H) / 2, H], "control assembly")
+    ctrlPlenum = [ct + (H - ct) * k / (len(ctrl) - 2) for k in range(1, len(ctrl) - 2)]
+    for x in ctrlPlenum:
+        for e in extra + low:
+            ctx.assume(x != e)      # (these points of the control assembly's own mesh are no candidates)
+    point_mesh(ctx, ctrl, [0.0, cb, ct] + ctrlPlenum + [H], "control assembly")
     for a in core:
         a.p.AziMesh = a.p.RadMesh = 1
         for b in a:
@@ -595,11 +753,12 @@ def decusped_common_mesh_keeps_material_boundaries(ctx, fuel, fuel2=None, coinci
                   len(ctrl.getBlocks(Flags.CONTROL)) == 1, all(len(a.getBlocks(Flags.FUEL)) == 1 for a in assems)))
     plain = UniformMeshGenerator(r, minimumMeshSize=None)
     plain.generateCommonMesh()
-    avg = [float(x) for x in plain._commonMesh]
+    avg = [x if isinstance(x, Sym) else float(x) for x in plain._commonMesh]
+    full = [low + list(f[:2]) + extra + [f[2]] for f in meshes]
     ctx.check("without a minimum size the common mesh is the average mesh of the fuel assemblies (the control assembly "
               "has another number of blocks)",
-              len(avg) == 3 and all(abs(x - (p + q) / 2) <= 1e-9 * H for x, p, q in zip(avg, *meshes)))
-    fixed = sorted(set(avg + fbs + fts))
+              AND(len(avg) == len(full[0]), *[abs(x - (p + q) / 2) <= 1e-9 * H for x, p, q in zip(avg, *full)]))
+    fixed = sorted(set([x for x in avg if not isinstance(x, Sym)] + fbs + fts)) + extra + low
     for x in freeCtrl:
         for f in fixed:
             ctx.assume(x != f)              # (coincidences with fuel boundaries: instances `coincide`)
@@ -637,6 +796,8 @@ def decusped_common_mesh_keeps_material_boundaries(ctx, fuel, fuel2=None, coinci
     if KNOWN_DEFECT_decusp_ignores_assembly_ends:
         topKept = IMPLIES(H - ct >= m, topKept)
         firstCell = IMPLIES(cb >= m, firstCell)
+    if KNOWN_DEFECT_decusp_thin_first_cell and low:
+        firstCell = IMPLIES(low[0] >= m, firstCell)
     ctx.check("the common mesh still ends at the top of the assemblies (spans the same height)", topKept)
     ctx.check("the first cell (from elevation 0) is not thinner than the minimum, unless it ends at the fuel bottom "
               "anchor", firstCell)
@@ -654,6 +815,24 @@ def decusped_common_mesh_keeps_material_boundaries(ctx, fuel, fuel2=None, coinci
 KNOWN_DEFECT_resample_sum_inner_bin = False  # recorded in known_findings.jsonl
 
 
+# Candidate genuine defect (reported, not repaired): in sum mode the partial bins are trimmed IN PLACE (chunk[-1] *= f) on
+# a slice of the caller's values; for a numpy array a slice is a view, so the caller's array is modified and later output
+# bins read the already trimmed value:  resampleStepwise([0,1,2,3,4], np.array([3.,2,5,3]), [0,2,3.5,4], avg=False) ->
+# [5.0, 6.5, 0.75] (a list of values gives [5.0, 6.5, 1.5]) and the array is left as [3, 2, 5, 0.75].
+# While the flag is set the obligations on numpy values are stated for average mode only.
+KNOWN_DEFECT_resample_sum_modifies_numpy_values = True
+
+# Candidate genuine defect (reported, not repaired): an output bin that starts below the first input point and reaches into
+# the input range is not given its partial overlap (np.digitize gives bin 0, the slice yin[-1:end] is empty or the LAST
+# value): resampleStepwise([0,10,20],[5.,7.],[-5,5,20]) -> [0, 6.33] (first bin covers 0..5 of value 5), avg=False ->
+# [0, 9.5] (2.5 expected); ([0,10],[5.],[-5,5]) -> IndexError; ([0,10,20],[5.,7.],[-5,25]) -> ZeroDivisionError.  An
+# overhang at the upper end is treated correctly.
+# A bin that starts below and ends exactly AT the first input point fails the same way (([0,10],[5.],[-5,0,5]) ->
+# ZeroDivisionError).
+# While the flag is set, span='over' assumes that no output bin starts below the first input point and reaches it.
+KNOWN_DEFECT_resample_left_overhang = True
+
+
 def _seg_overlap(a0, a1, b0, b1):
     return MAX(0, MIN(a1, b1) - MAX(a0, b0))
 
@@ -661,10 +840,13 @@ def _seg_overlap(a0, a1, b0, b1):
 @harness("C11", bounds="step function on n bins (first point in [-100,100], bin widths in [0.01,1000], values in "
                        "[-1000,1000], all symbolic) resampled onto m bins; span='same': identical end points, interior "
                        "points anywhere (every interleaving/coincidence is a path); span='sub': output span strictly "
-                       "or weakly inside the input span; both modes (average / sum)", stubs=STUBS, qtimeout_ms=30000,
+                       "or weakly inside the input span; span='over': output bins anywhere, also partly or wholly "
+                       "outside the input span; both modes (average / sum); values given as a list and as a numpy array",
+         stubs=STUBS, qtimeout_ms=30000,
          instances={"quick": [dict(n=2, m=2, span="same"), dict(n=3, m=2, span="same"), dict(n=2, m=3, span="same"),
                               dict(n=2, m=2, span="sub")],
-                    "thorough": [dict(n=3, m=3, span="same"), dict(n=3, m=2, span="sub"), dict(n=4, m=2, span="same")]})
+                    "thorough": [dict(n=3, m=3, span="same"), dict(n=3, m=2, span="sub"), dict(n=4, m=2, span="same"),
+                                 dict(n=2, m=2, span="over"), dict(n=1, m=2, span="over")]})
 def resample_stepwise_conserves_integral(ctx, n, m, span):
     x0 = ctx.real("x0", -100.0, 100.0)
     dx = [ctx.real("dx%d" % k, 0.01, 1000.0) for k in range(n)]
@@ -683,12 +865,15 @@ def resample_stepwise_conserves_integral(ctx, n, m, span):
         xout.append(xin[-1])
         do = do + [last]
     else:
-        s0 = ctx.real("shift", 0.0, 1000.0)
+        s0 = ctx.real("shift", -1000.0 if span == "over" else 0.0, 1000.0)
         do = [ctx.real("do%d" % k, 0.01, 1000.0) for k in range(m)]
         xout = [x0 + s0]
         for d in do:
             xout.append(xout[-1] + d)
-        ctx.assume(xout[-1] <= xin[-1] + (0 if ctx.mode == "sym" else 1e-9 * W))
+        if span == "sub":
+            ctx.assume(xout[-1] <= xin[-1] + (0 if ctx.mode == "sym" else 1e-9 * W))
+        elif KNOWN_DEFECT_resample_left_overhang:
+            ctx.assume(NOT(OR(*[AND(xout[j] < x0, xout[j + 1] >= x0) for j in range(m)])))
     ysc = sum(abs(y) for y in yin) + 1e-30
     avg = mathmod.resampleStepwise(list(xin), list(yin), list(xout), avg=True)
     tot = mathmod.resampleStepwise(list(xin), list(yin), list(xout), avg=False)
@@ -699,8 +884,17 @@ def resample_stepwise_conserves_integral(ctx, n, m, span):
         want = sum(yin[i] * ov[i] for i in range(n))
         if ctx.canary and j == 0:
             want = want * ITE(AND(do[0] > 2 * dx[0], dx[0] > 100), 1.001, 1)
-        ctx.check_close("average mode, bin %d: value x width = integral of the step function over the bin" % j,
-                        avg[j] * do[j], want, scale=ysc * W)
+        if span == "over":
+            # the step function is defined on the input span only: the average is taken over the covered part of the
+            # bin, a bin wholly outside gets 0 (no data)
+            covered = _seg_overlap(xin[0], xin[-1], xout[j], xout[j + 1])
+            ctx.check_close("average mode, bin %d: value x covered width = integral of the step function over the bin" % j,
+                            avg[j] * covered, want, scale=ysc * W)
+            ctx.check("bin %d: a bin wholly outside the input span gets 0 in both modes" % j,
+                      IMPLIES(covered == 0, AND(avg[j] == 0, tot[j] == 0)))
+        else:
+            ctx.check_close("average mode, bin %d: value x width = integral of the step function over the bin" % j,
+                            avg[j] * do[j], want, scale=ysc * W)
         inner = OR(*[AND(xin[i] < xout[j], xout[j + 1] < xin[i + 1]) for i in range(n)])
         inners.append(inner)
         wantSum = sum(yin[i] * ov[i] / dx[i] for i in range(n))
@@ -718,8 +912,21 @@ def resample_stepwise_conserves_integral(ctx, n, m, span):
     c = ctx.real("c", -1000.0, 1000.0)
     flat = mathmod.resampleStepwise(list(xin), [c] * n, list(xout), avg=True)
     for j in range(m):
-        ctx.check_close("a constant profile stays constant (bin %d)" % j, flat[j], c, scale=abs(c) + 1e-30)
-    ctx.check("inputs are not modified", AND(all(a is b for a, b in zip(yin, [y for y in yin])), len(yin) == n))
+        wantFlat = c
+        if span == "over":      # (no data, hence 0, in a bin wholly outside the input span)
+            wantFlat = ITE(_seg_overlap(xin[0], xin[-1], xout[j], xout[j + 1]) > 0, c, 0)
+        ctx.check_close("a constant profile stays constant (bin %d)" % j, flat[j], wantFlat, scale=abs(c) + 1e-30)
+    # the same values handed over as a numpy array (float array on plain numbers, object array of proxies)
+    for mode, ref in (("average", avg), ("sum", tot)):
+        if mode == "sum" and KNOWN_DEFECT_resample_sum_modifies_numpy_values:
+            continue
+        ynp = np_shim.array(list(yin))
+        out = mathmod.resampleStepwise(list(xin), ynp, list(xout), avg=mode == "average")
+        ctx.check("numpy values, %s: the caller's array is left untouched" % mode,
+                  AND(len(ynp) == n, *[a == b for a, b in zip(ynp, yin)]))
+        for j in range(m):
+            ctx.check_close("numpy values, %s: bin %d gets the same value as with a list of values" % (mode, j),
+                            out[j], ref[j], scale=ysc)
 
 
 # ---------------------------------------------------------------------------------------------------------------
